@@ -518,6 +518,32 @@ fn get_aliases_by_symbol(
                             .or_else(|| default_aliases.get(&step.symbol()))
                             .copied(),
                     );
+
+                // When an inlined rule is used with an alias, inlining applies that
+                // alias to every step of the inlined rule's productions, so those
+                // symbols can appear in the tree under the alias' name.
+                if let Some(alias) = step.alias() {
+                    let mut pending = vec![step.symbol()];
+                    let mut seen = Vec::new();
+                    while let Some(symbol) = pending.pop() {
+                        if !symbol.is_non_terminal()
+                            || !syntax_grammar.variables_to_inline.contains(&symbol)
+                            || seen.contains(&symbol)
+                        {
+                            continue;
+                        }
+                        seen.push(symbol);
+                        for inlined_prod_id in syntax_grammar.variable_prod_ids(symbol.index as usize) {
+                            for inlined_step in syntax_grammar.production(inlined_prod_id).steps {
+                                aliases_by_symbol
+                                    .entry(inlined_step.symbol())
+                                    .or_insert_with(BTreeSet::new)
+                                    .insert(Some(alias));
+                                pending.push(inlined_step.symbol());
+                            }
+                        }
+                    }
+                }
             }
         }
     }
